@@ -21,7 +21,7 @@ import (
 // Exit codes: 0 held, 1 violation (with a VIOLATION line), 2 harness trouble.
 
 func main() {
-	debug.SetMaxStack(192 << 20) // a runaway Go recursion dies quickly instead of eating 1 GB
+	debug.SetMaxStack(1 << 30) // the Go default, stated: 100_000 Starlark frames must fit (the interpreter's own limit)
 	installHooks()
 	startMemWatchdog()
 	if len(os.Args) < 2 {
@@ -649,6 +649,14 @@ func cmdCheck(args []string) int {
 		path := filepath.Join(verifDir(), "replays", fmt.Sprintf("%s-%d-%016x.json", p.ID(), seed, hashStr(string(min.JSON()))))
 		os.WriteFile(path, min.JSON(), 0o644)
 		classes, crashed := replayInChild(bin, path)
+		if fv.Class == "data-race" {
+			// The schedule replays exactly, but the race detector keeps only four
+			// accesses per 8-byte word and evicts at random, so a report can be
+			// missed on a given run: retry.
+			for try := 0; try < 6 && !containsStr(classes, fv.Class); try++ {
+				classes, crashed = replayInChild(bin, path)
+			}
+		}
 		ok := crashed && fv.Class == "crash"
 		for _, c := range classes {
 			if c == fv.Class {
@@ -760,6 +768,15 @@ func writeEvidence(p Prop, tier string, seed uint64, agg *workerOut, nontriv, sw
 	b, _ := json.MarshalIndent(ev, "", " ")
 	os.MkdirAll(filepath.Join(verifDir(), "evidence"), 0o755)
 	os.WriteFile(filepath.Join(verifDir(), "evidence", p.ID()+".json"), b, 0o644)
+}
+
+func containsStr(xs []string, s string) bool {
+	for _, x := range xs {
+		if x == s {
+			return true
+		}
+	}
+	return false
 }
 
 // tailWriter keeps only the first 2 KiB written to it.
@@ -1057,12 +1074,16 @@ func minimiseInChild(bin string, p Prop, sc *Scenario, class string, tmp string,
 	path := filepath.Join(tmp, "candidate.json")
 	return minimiseWith(p, sc, budget, func(c *Scenario) (bool, string) {
 		os.WriteFile(path, c.JSON(), 0o644)
-		classes, crashed := replayInChild(bin, path)
-		if class == "crash" {
-			return crashed, "the process was killed by a fatal Go error"
+		tries := 1
+		if class == "data-race" {
+			tries = 3
 		}
-		for _, cl := range classes {
-			if cl == class {
+		for t := 0; t < tries; t++ {
+			classes, crashed := replayInChild(bin, path)
+			if class == "crash" {
+				return crashed, "the process was killed by a fatal Go error"
+			}
+			if containsStr(classes, class) {
 				return true, ""
 			}
 		}
